@@ -74,6 +74,10 @@ var c36Pinned = []c36PinnedCase{
 		schema: "CREATE TABLE t (pk int primary key, `c.d` int);\n",
 		build:  "CREATE TABLE t (pk int primary key, `c.d` int);\nINSERT INTO t VALUES (1, 3), (2, 4);\n",
 		tables: map[string]string{"t": "pk, `c.d`"}},
+	{id: c36FParquetUint64, format: "parquet", what: "a BIGINT UNSIGNED value above the int64 range comes back from a parquet file as a negative number and the import rejects the row ('-1 out of range for bigint unsigned')",
+		schema: "CREATE TABLE t (pk int primary key, u bigint unsigned);\n",
+		build:  "CREATE TABLE t (pk int primary key, u bigint unsigned);\nINSERT INTO t VALUES (1, 18446744073709551615), (2, 9223372036854775807), (3, 0);\n",
+		tables: map[string]string{"t": "pk, CAST(u AS CHAR)"}},
 	{id: c36FFloatMax, what: "the largest FLOAT (float32) value is written as 3.4028235e+38, which the loader rejects as out of range",
 		build:  "CREATE TABLE t (pk int primary key, f float);\nINSERT INTO t VALUES (1, 3.4028234e38), (2, -3.4028234e38), (3, 1.5);\n",
 		tables: map[string]string{"t": "pk, CAST(f AS CHAR)"}},
